@@ -7,7 +7,8 @@ package lib
 // the extracted Coq model.
 //
 //	bparse <T> <ver> <dialect> <hex>             fresh receiver: "ok <dump>" | "err" | "panic"
-//	bseq   <T> <ver> <dialect> <hex1> ... <hexN> ONE receiver parses all bodies in order; answer of the last
+//	bseq   <T> <dialect> <ver1>:<hex1> ... <verN>:<hexN>  ONE receiver parses all bodies in order (each with its
+//	                                             own header version); answer of the last
 //	brt    <T> <ver> <dialect> <hex>             parse (fresh) then Encode: "ok <dump> enc=<hex>"
 //	benc   <T> <ver> <dialect> <tree> [g=..]     build the value from the dump syntax, Encode, Parse back:
 //	                                             "enc=<hex> back=<answer of bparse>"
@@ -336,12 +337,20 @@ func BodyParse(t *BodyType, ver, dial int, body []byte) string {
 	return "ok " + safeDump(h)
 }
 
+// VerBody: one body with the header version it arrives under.
+type VerBody struct {
+	Ver  int
+	Body []byte
+}
+
+func (v VerBody) String() string { return strconv.Itoa(v.Ver) + ":" + Hx(v.Body) }
+
 // BodyParseSeq: one receiver parses every body in order (each an exact-capacity copy).
-func BodyParseSeq(t *BodyType, ver, dial int, bodies [][]byte) string {
+func BodyParseSeq(t *BodyType, dial int, bodies []VerBody) string {
 	h := t.New(consts.ActiveSafetyType(dial))
 	o := "ok"
 	for _, b := range bodies {
-		o = ParseInto(h, ver, Exact(b))
+		o = ParseInto(h, b.Ver, Exact(b.Body))
 		if o == "panic" {
 			return o
 		}
@@ -492,7 +501,12 @@ func init() {
 		return BodyParse(BodyTypeByName(a[0]), atoi(a[1]), atoi(a[2]), Unhx(a[3]))
 	})
 	RegisterOp("bseq", func(a []string) string {
-		return BodyParseSeq(BodyTypeByName(a[0]), atoi(a[1]), atoi(a[2]), unhxAll(a[3:]))
+		var vb []VerBody
+		for _, x := range a[2:] {
+			i := strings.IndexByte(x, ':')
+			vb = append(vb, VerBody{atoi(x[:i]), Unhx(x[i+1:])})
+		}
+		return BodyParseSeq(BodyTypeByName(a[0]), atoi(a[1]), vb)
 	})
 	RegisterOp("brt", func(a []string) string {
 		return BodyRoundTrip(BodyTypeByName(a[0]), atoi(a[1]), atoi(a[2]), Unhx(a[3]))
